@@ -21,14 +21,94 @@ func (e *Engine) buildAxioms() []string {
 	for _, ax := range e.axioms {
 		c := e.newCtx(nil, nil)
 		env := &Env{c: c, cur: &State{pc: True, cells: map[*ssa.Alloc]*Val{}, heap: map[string]*Term{}, ac: Var("ac0", SInt)}, vars: map[string]*Val{}}
+		env.pkg = e.pkgByPath[ax.Pkg]
+		bad := false
+		for _, lp := range ax.Params {
+			var v *Val
+			switch lp.Type {
+			case "int":
+				v = mathInt(Fresh("lem."+lp.Name, SInt))
+			case "bool":
+				v = mathBool(Fresh("lem."+lp.Name, SBool))
+			case "[int]int":
+				v = &Val{K: VArr, X: Fresh("lem."+lp.Name, SArr(SInt, SInt))}
+			default:
+				te, perr := ParseExpr(lp.Type)
+				if perr != nil {
+					errs = append(errs, fmt.Sprintf("lemma %s: %v", ax.Name, perr))
+					bad = true
+					continue
+				}
+				func() {
+					defer func() {
+						if r := recover(); r != nil {
+							errs = append(errs, fmt.Sprintf("lemma %s: unknown type %s", ax.Name, lp.Type))
+							bad = true
+						}
+					}()
+					t := env.resolveType(te)
+					var facts []*Term
+					v, facts = freshVal(t, "lem."+lp.Name)
+					for _, f := range facts {
+						c.facts = append(c.facts, f)
+					}
+				}()
+			}
+			if v != nil {
+				env.vars[lp.Name] = v
+			}
+		}
+		if bad {
+			continue
+		}
 		t, err := env.evalClause(ax.E)
 		if err != nil {
 			errs = append(errs, fmt.Sprintf("axiom %s: %v", ax.Name, err))
 			continue
 		}
+		// lemma instances named in `using`: the instance formula is assumed (the lemma itself is an
+		// obligation of its own, and only earlier lemmas may be used)
+		for _, u := range ax.Using {
+			var target *Axiom
+			for _, prev := range e.axioms {
+				if prev == ax {
+					break
+				}
+				if prev.Name == u.Name && prev.Lemma {
+					target = prev
+				}
+			}
+			if target == nil || len(target.Params) != len(u.Args) {
+				errs = append(errs, fmt.Sprintf("lemma %s: using %s: no earlier lemma of that name/arity", ax.Name, u.Name))
+				continue
+			}
+			vars := map[string]*Val{}
+			ok := true
+			for i, a := range u.Args {
+				func() {
+					defer func() {
+						if r := recover(); r != nil {
+							errs = append(errs, fmt.Sprintf("lemma %s: using %s: %v", ax.Name, u.Name, r))
+							ok = false
+						}
+					}()
+					vars[target.Params[i].Name] = env.eval(a)
+				}()
+			}
+			if !ok {
+				continue
+			}
+			ienv := &Env{c: c, cur: env.cur, vars: vars, pkg: e.pkgByPath[target.Pkg]}
+			it, err := ienv.evalClause(target.E)
+			if err != nil {
+				errs = append(errs, fmt.Sprintf("lemma %s: using %s: %v", ax.Name, u.Name, err))
+				continue
+			}
+			c.facts = append(c.facts, it)
+		}
 		syms := map[string]bool{}
 		collectSyms([]*Term{t}, syms)
-		e.axiomTerms = append(e.axiomTerms, axiomTerm{ax, t, syms})
+		e.axiomTerms = append(e.axiomTerms, axiomTerm{ax, t, syms, c.facts})
 	}
 	return errs
 }
